@@ -167,7 +167,7 @@ func C06(p *ir.Program, r *report.R) {
 		}
 		pb := p.Func("app", "LinkApplication.processBlock")
 		for _, call := range ir.Calls(pb, "app.Processor.Process") {
-			c.GuardsAny("app.(*LinkApplication).processBlock", "Process", "verified-unless-prerun", call, "eq(app.LinkApplication.verifyTxsOnProcess(app,block),nil)", "preRun")
+			c.GuardsAny("app.(*LinkApplication).processBlock", "Process", "verified-unless-prerun", call, "eq(app.LinkApplication.verifyTxsOnProcess(app,*),nil)", "preRun")
 		}
 		c.MustFind("K2", "app.(*LinkApplication).processBlock/Process", pb, len(ir.Calls(pb, "app.Processor.Process")), "Process call")
 		cv := p.Func("app", "processState.checkValid")
